@@ -403,7 +403,8 @@ def prove(hyps, goal, timeout_s=10.0, use_cvc5=True, want_model=True, axioms=Tru
     if clear:
         hyps, goal, _ = try_clear(hyps, goal)
     s = z3.Solver()
-    s.set("timeout", int(timeout_s * 1000))
+    quick_ms = int(min(timeout_s, 1.5) * 1000)
+    s.set("timeout", quick_ms)
     for h in hyps:
         s.add(h)
     s.add(z3.Not(goal))
@@ -413,14 +414,25 @@ def prove(hyps, goal, timeout_s=10.0, use_cvc5=True, want_model=True, axioms=Tru
         return Verdict("proved", None, "z3-5.1(api)", dt)
     if r == z3.sat:
         return Verdict("refuted", s.model() if want_model else None, "z3-5.1(api)", dt)
-    reason = s.reason_unknown()
+    # portfolio: a short z3 attempt, then cvc5 (often instant on what nlsat finds hard), then z3 with the full budget
+    smt = None
     if use_cvc5:
-        smt = "(set-logic ALL)\n" + s.to_smt2()
-        v = _cvc5(smt, timeout_s)
+        smt = s.to_smt2()
+        v = _cvc5("(set-logic ALL)\n" + smt, timeout_s)
         if v is not None:
             v.secs += dt
             return v
-        v = _z3_old(s.to_smt2(), timeout_s)
+    if timeout_s * 1000 > quick_ms:
+        s.set("timeout", int(timeout_s * 1000))
+        r = s.check()
+        dt = time.time() - t0
+        if r == z3.unsat:
+            return Verdict("proved", None, "z3-5.1(api)", dt)
+        if r == z3.sat:
+            return Verdict("refuted", s.model() if want_model else None, "z3-5.1(api)", dt)
+    reason = s.reason_unknown()
+    if use_cvc5 and smt is not None:
+        v = _z3_old(smt, timeout_s)
         if v is not None:
             v.secs += dt
             return v
@@ -498,3 +510,40 @@ def model_array(m, arr):
         v = a[ix]
         out[ix] = model_value(m, S.zz(v)) if isinstance(v, S.Sym) else float(v)
     return out
+
+
+def brief(t, budget=220):
+    """Bounded-size rendering of a z3 term (the stock pretty printer is quadratic on large DAGs)."""
+    out = []
+    left = [budget]
+
+    def go(e, depth):
+        if left[0] <= 0:
+            return
+        if not z3.is_expr(e):
+            tok = str(e)
+        elif z3.is_quantifier(e):
+            tok = "forall.."
+        elif e.num_args() == 0:
+            tok = str(e)
+        else:
+            name = e.decl().name()
+            if depth > 6:
+                tok = f"({name} ..)"
+            else:
+                out.append("(" + name)
+                left[0] -= len(name) + 1
+                for i in range(e.num_args()):
+                    if left[0] <= 0:
+                        out.append(" ..")
+                        break
+                    out.append(" ")
+                    go(e.arg(i), depth + 1)
+                out.append(")")
+                left[0] -= 2
+                return
+        out.append(tok)
+        left[0] -= len(tok)
+
+    go(t, 0)
+    return "".join(out)
